@@ -63,6 +63,17 @@ Theorem eq_implies_equal_hash : forall v, v_intv_guard v = true -> v_arrw_hash_t
 Proof. exact eqt_hash_full. Qed.
 Print Assumptions eq_implies_equal_hash.
 
+(* PARTIAL statement that holds of the CURRENT code: if moreover no ProductSpaceArrayWeighting
+   occurs (tensor-space array weightings, constants, matrices, custom callables are all fine),
+   a == b implies equal hashes *)
+Theorem eq_implies_equal_hash_current_partial : forall n (a b : obj R),
+  ndims_ok n a = true -> ndims_ok n b = true ->
+  weights_ok no_ps_array a = true -> weights_ok no_ps_array b = true ->
+  eqt current_variants a b = TT ->
+  key_eqv (hash_key current_variants a) (hash_key current_variants b) = true.
+Proof. exact current_hash_partial. Qed.
+Print Assumptions eq_implies_equal_hash_current_partial.
+
 (* ---------------------------------------------------------------- weightings and partitions *)
 (* Weighting.__eq__ and its overrides: an equivalence (equality of the descriptor with the
    class family erased) ... *)
